@@ -8,6 +8,7 @@ import SgeProofs.Properties.C13Core
 import SgeProofs.Lemmas.CombinedHooksTotalInv
 import SgeProofs.Lemmas.CombinedBankExactInv
 import SgeProofs.Lemmas.CombinedLock
+import SgeProofs.Lemmas.CombinedWagerNoGain
 namespace Sge.Combined
 open Sge Sge.Core Sge.Genesis
 
@@ -217,6 +218,56 @@ theorem c11_lock_bound_combined (p : Params) (bal : List (Nat × Int)) (h t : Na
   have hI := cmb2_run_lock ops (init p bal h t we de) h0 hmono
   have := hI a r har
   exact ⟨this.rel0, this.relWd, this.lock⟩
+
+-- ---------------------------------------------------------------------------------------------
+-- C11.4/5 over combined histories: how tokens leave a subaccount
+
+/-- C11 (combined), EVERY OUTFLOW IS BOOKED. In a `wfU` and `clean` history, for every operation `op` applied to a
+    reachable state and every subaccount that exists before and after it: what leaves the bank balance of the
+    subaccount address in that operation is exactly the increase of Withdrawn (unlocked-balance withdrawal, or the
+    subaccount's share of a wager net of what is returned) + Spent (house deposit, net of withdrawals and of what the
+    settlement hooks un-spend) + Lost (house loss booked at settlement) − Deposited (top-up). In particular the house
+    profit forwarded to the owner by `AfterHouseWin` is paid out of the payout that arrived in the same block. -/
+theorem c11_outflow_booked_combined (p : Params) (bal : List (Nat × Int)) (h t : Nat) (we de : Bool) (ops : List Op) (op : Op)
+    (h0 : getBal bal ACC_POOL = 0 ∧ getBal bal ACC_BETFEE = 0 ∧ getBal bal ACC_HOUSEFEE = 0)
+    (hb : ∀ x, SUB_BASE ≤ x → getBal bal x = 0) (hwf : ∀ o ∈ ops ++ [op], o.wfU) (hcl : (ops ++ [op]).all Op.clean = true) :
+    let s := run (init p bal h t we de) ops
+    let s' := (step s op).1
+    ∀ a r r', aget s.subs a = some r → aget s'.subs a = some r' →
+      s.bal a - s'.bal a = (r'.sum.withdrawn - r.sum.withdrawn) + (r'.sum.spent - r.sum.spent) + (r'.sum.lost - r.sum.lost)
+        - (r'.sum.deposited - r.sum.deposited) := by
+  intro s s' a r r' har har'
+  have hcl' : ops.all Op.clean = true ∧ op.clean = true := by
+    rw [List.all_append, Bool.and_eq_true] at hcl
+    refine ⟨hcl.1, ?_⟩
+    have := hcl.2
+    simp only [List.all_cons, List.all_nil, Bool.and_true] at this
+    exact this
+  have hI : cmb2_BXInv s := cmb2_run_bxinv ops _ (cmb2_init_bxinv p bal h t we de h0 hb)
+    (fun o ho => hwf o (List.mem_append_left _ ho)) hcl'.1
+  have hI' : cmb2_BXInv s' := cmb2_step_bxinv s op hI (hwf op (List.mem_append_right _ (List.mem_singleton.mpr rfl))) hcl'.2
+  have z := hI.zero a (hI.ht.linv.inRange.of har)
+  have z' := hI'.zero a (hI'.ht.linv.inRange.of har')
+  unfold surplus led at z z'
+  rw [har] at z
+  rw [har'] at z'
+  simp only [Sge.Subaccount.Summary.available] at z z'
+  omega
+
+/-- C11 (combined), A SUBACCOUNT WAGER NEVER RAISES THE OWNER'S FREE BALANCE. In every reachable state (`Op.wfU`
+    history), after a successful MsgWager of x/subaccount — the subaccount's deduction is moved to the owner, the REAL
+    bet-module wager charges the owner bet fee + matched stake, what was not taken is returned to the subaccount — the
+    owner's bank balance is at most what it was before: locked subaccount funds cannot be turned into free funds of the
+    owner by betting. -/
+theorem c11_subWager_no_gain_combined (p : Params) (bal : List (Nat × Int)) (h t : Nat) (we de : Bool) (ops : List Op)
+    (h0 : getBal bal ACC_POOL = 0 ∧ getBal bal ACC_BETFEE = 0 ∧ getBal bal ACC_HOUSEFEE = 0)
+    (hb : ∀ x, SUB_BASE ≤ x → 0 ≤ getBal bal x) (hwf : ∀ op ∈ ops, op.wfU)
+    (owner : Nat) (outerOk : Bool) (ic : Nat) (main sub : Int) (tk : Tk) (uid : Nat) (amount : Int) (pl : WagerPayload) :
+    let s := run (init p bal h t we de) ops
+    ∀ s', subWagerO s owner outerOk ic main sub tk uid amount pl = some s' → s'.bal owner ≤ s.bal owner := by
+  intro s s' hs'
+  have hI : LInv s := cmb_run_linv ops _ (cmb_init_linv p bal h t we de h0 hb) hwf
+  exact cmb2_subWager_owner hI.inRange hI.users hs'
 
 -- ---------------------------------------------------------------------------------------------
 -- non-vacuity and sharpness on concrete histories
